@@ -25,7 +25,7 @@ RULE = ('families: hit = loss-free honest network of N in {2..40} nodes joined t
         'pages = focused sweep: one storer holding n = 1..100 records, one searcher (which then announces the blob itself: stored on the storer, the n others still returned), plus a lookup during which n/2 further records reach the storer '
         '(one between any two datagrams); expiry = announce, 24 h - 1 s, 24 h + 1 s of virtual time; stale = N >= 10: blob announced by one of its K '
         'closest nodes, 24 h + 1 s later by a far node, looked up from every node incl. the one left with only the expired record; '
-        'fault = loss in {0.1,0.3,0.6}, dead subset, hostile subset from a 13-entry catalogue (+ cases of their own for kinds added later: repeated_page), node and value lookups from honest nodes. '
+        'fault = loss in {0.1,0.3,0.6}, dead subset, hostile subset from a 13-entry catalogue (+ cases of their own for kinds added later: repeated_page), node and value lookups from honest nodes; oneway = N in {5,8,12} + a late joiner whose replies to 1-3 nodes are lost while its requests arrive, node lookups from those nodes (existing ids, random keys) while it joins and over the next minutes. '
         'distinct = hash(family, N, delay class, fault mix, hostile kinds, lookup kind); non-trivial = everything except N=2 zero-delay hits')
 ASSUMPTIONS = ['datagram network fully simulated (no sockets); one-way delay <= rpc_timeout/2 - eps in hit scenarios (longer is indistinguishable from loss)',
                'virtual clock: all deadlines in virtual seconds; wall-clock watchdog => inconclusive',
@@ -33,7 +33,7 @@ ASSUMPTIONS = ['datagram network fully simulated (no sockets); one-way delay <= 
                'hostile repliers are scripted from a fixed catalogue; they answer every request they receive']
 REQUIRED_HITS = ['H1.lookup_found_announcer', 'H2.checked', 'H3.before_expiry_found', 'H3.after_expiry_gone', 'H3.renewed_found_after_first_expiry', 'H4.multi_announcer_all_found',
                  'H4.page_sweep_checked', 'T1.lookup_terminated', 'T1.with_loss', 'T1.with_dead', 'T1.with_hostile', 'T2.node_results_checked',
-                 'T2.value_results_checked', 'H4.page_sweep_checked_searcher_is_announcer', 'H4.multi_announcer_all_found_by_an_announcer', 'net.duplicates_delivered', 'net.reordered', 'hostile.garbage', 'hostile.endless_pages',
+                 'T2.value_results_checked', 'T2.oneway_node_results_checked', 'H4.page_sweep_checked_searcher_is_announcer', 'H4.multi_announcer_all_found_by_an_announcer', 'net.duplicates_delivered', 'net.reordered', 'hostile.garbage', 'hostile.endless_pages',
                  'hostile.reserved_ips', 'hostile.own_id_contacts', 'hostile.bad_compact', 'size.2', 'size.40',
                  'H3.holder_of_expired_record_found_fresh_announcer', 'T1.paging_while_records_arrive', 'hostile.repeated_page_served_again',
                  'H1.delivered_by_accumulate_peers', 'H1.late_joiner_found_announcer', 'H1.late_joiner_delivered_by_accumulate_peers',
@@ -68,6 +68,8 @@ def gen_cases(rng, tier, shard, nshards):
                   'hostile': [HOSTILE_LATER[i % len(HOSTILE_LATER)]] + ([] if q else rng.sample(HOSTILE, rng.choice([0, 1, 2]))),
                   'loss': 0 if q else rng.choice([0, 0, 0.1, 0.3]), 'dead': 0 if q else rng.choice([0, 0, 1])}
                  for i in range((1 if 10 <= shard < 14 else 0) if q else 40)])
+    fams.append([{'fam': 'oneway', 'seed': rng.getrandbits(48), 'n': rng.choice([5, 8, 12])}
+                 for _ in range((1 if 2 <= shard < 8 else 0) if q else 12)])
     while any(fams):
         for f in fams:
             if f:
@@ -105,6 +107,8 @@ class SimNet:
         self.protocols = {}
         self.dead = set()
         self.hostile = {}                    # addr -> callable(data, src) -> [reply bytes]
+        self.mute = set()                    # (src, dst): response datagrams of src to dst are lost
+        self.muted = 0
         self.illformed = set()               # (ip, port) named only by compact addresses of the wrong length that hostile nodes sent
         self.replies_seen = collections.defaultdict(set)      # dst -> {(node_id, src)}
         self.sent = self.delivered = self.dropped = self.duplicated = self.reordered = 0
@@ -127,6 +131,10 @@ class SimNet:
         self.sent += 1
         if src in self.dead or dst in self.dead:
             self.dropped += 1
+            return
+        if (src, dst) in self.mute and data[:7] == b'di0ei1e':      # one-way reachability: src's replies never reach dst (its requests do)
+            self.dropped += 1
+            self.muted += 1
             return
         if self.loss and self.r.random() < self.loss:
             self.dropped += 1
@@ -849,6 +857,64 @@ async def _stale(rec, case, loop):
         stop_all(nodes)
 
 
+async def _oneway(rec, case, loop):
+    """T2 for node lookups where it is hard: a late joiner W whose *replies* never reach some nodes S (one-way reachability) while its
+    requests do, so S keeps hearing from a node that has never answered it.  S looks up ids of existing nodes (the lookup ends as soon as a
+    reply names the key, with contacts it has not probed yet in its list) and random keys, while W joins and afterwards.  Seeded break
+    C12-K counted a received request as proof of life; the oracle is the one of the fault family: replies S really received."""
+    boot.import_lbry()
+    from lbry.dht.node import Node
+    from lbry.dht.peer import PeerManager
+    r = random.Random(case['seed'])
+    n = case['n']
+    net = SimNet(loop, r, delay=(0.0, r.choice([0.0, 0.3, 1.0])))
+    net.install()
+    nodes = await build_network(loop, net, r, n, settle=300.0)
+    w = None
+    try:
+        deaf = r.sample(range(1, n), r.randrange(1, min(4, n - 1)))
+        w_addr = (pub_ip(n), 4444)
+        for s_i in deaf:
+            net.mute.add((w_addr, (pub_ip(s_i), 4444)))
+        w = Node(loop, PeerManager(loop), hashlib.sha384(b'oneway%d' % r.getrandbits(32)).digest(), 4444, 4444, 3333, pub_ip(n), rpc_timeout=RPC)
+        await w.start_listening(pub_ip(n))
+        w.start(pub_ip(n), [(pub_ip(0), 4444)])
+        ids = [nd.protocol.node_id for nd in nodes] + [w.protocol.node_id]
+        for rnd in range(8):
+            # short waits while W joins; long ones so that the 300 s ping queues run (the others adopt W, S pings it in vain)
+            await asyncio.sleep(r.choice([0.2, 1, 3, 10, 40, 150, 320]))
+            if rec.out_of_time():
+                break
+            for s_i in deaf:
+                searcher = nodes[s_i]
+                my_addr = (pub_ip(s_i), 4444)
+                for key in r.sample([i for i in ids if i != searcher.protocol.node_id], 2) + [hashlib.sha384(b'ow%d' % r.getrandbits(30)).digest()]:
+                    found, done, probes, dt, finder = await node_lookup(loop, searcher, key, watchdog=1500.0)
+                    if not done:
+                        rec.violation('C12/T1/lookup-did-not-terminate/node/one-way-reachable-node',
+                                      f'node lookup still running after 1500 virtual s ({probes} probes); network of {n}+1', {'n': n, 'probes': probes})
+                        continue
+                    rec.hit('T1.lookup_terminated')
+                    rec.hit('T2.oneway_node_results_checked')
+                    if any((p.address, p.udp_port) == w_addr for p in finder.active):
+                        rec.hit('T2.oneway_mute_node_was_in_the_finished_lookups_list')
+                    for p in found:
+                        if p.node_id == searcher.protocol.node_id:
+                            rec.violation('C12/T2/node-lookup-yielded-the-searcher', 'node lookup yielded the searching node itself', {'family': 'oneway'})
+                            break
+                        if (p.node_id, (p.address, p.udp_port)) not in net.replies_seen[my_addr]:
+                            mech = 'one-way-reachable-node' if (p.address, p.udp_port) == w_addr else 'never-replied'
+                            rec.violation(f'C12/T2/node-lookup-yielded-contact-that-never-replied/{mech}',
+                                          f'node lookup yielded {p.node_id.hex()[:8]}@{p.address}:{p.udp_port} from which the searcher never received a reply '
+                                          f'({mech}: its requests arrive, its replies are lost)', {'family': 'oneway', 'mech': mech, 'n': n})
+                            break
+        if net.muted:
+            rec.hit('net.oneway_replies_dropped')
+        rec.case(['oneway', n, len(deaf)], sample={'family': 'oneway', 'nodes': n + 1, 'deaf_to_late_joiner': len(deaf), 'replies_dropped': net.muted})
+    finally:
+        stop_all(nodes + ([w] if w else []))
+
+
 async def _fault(rec, case, loop):
     boot.import_lbry()
     r = random.Random(case['seed'])
@@ -952,7 +1018,7 @@ async def _fault(rec, case, loop):
 
 
 def execute(rec, case):
-    fam = {'hit': _hit, 'pages': _pages, 'expiry': _expiry, 'stale': _stale, 'fault': _fault}[case['fam']]
+    fam = {'hit': _hit, 'pages': _pages, 'expiry': _expiry, 'stale': _stale, 'fault': _fault, 'oneway': _oneway}[case['fam']]
     random.seed(case.get('seed', case.get('lo', 0)))      # routing-table refresh draws ids from the global PRNG
     boot.import_lbry()
     from lbry.dht import peer as _peer
